@@ -2,8 +2,8 @@
    Shape (R): specification SC, verified witness checker, two verified reference deciders
    (brute force over arrangements; nested conflict sets), heredity and invariance.
    Statements only; proofs are in Proofs/SC.v.  Rankings are flat strict orders (list N). *)
-From Coq Require Import List Arith NArith Bool Permutation.
-From PrefVerif Require Import Lib.Val Lib.Perms Model.Distances Model.SC Proofs.SC.
+From Coq Require Import List Arith NArith ZArith Bool Permutation.
+From PrefVerif Require Import Lib.Val Lib.Perms Model.Distances Model.SC Model.SCAlgo Proofs.SC Proofs.SCAlgo.
 Import ListNotations.
 
 (* the specification, unfolded (copied from the property text): the orders can be arranged in a
@@ -186,6 +186,49 @@ Theorem sc_seq_kt_triples : forall alts s, NoDup alts -> Forall (fun o => Permut
 Proof. exact Proofs.SC.sc_seq_kt_triples. Qed.
 Print Assumptions sc_seq_kt_triples.
 
+(* ---- shape (M): the algorithm of is_single_crossing itself (mirror sc_algo, Model/SCAlgo.v:
+        scores relative to the first two stored orders, stable sort for n < m, bucket array with the
+        collision test for n >= m, verification pass) is exact on well-formed profiles, every size.
+        Ok (Some seq) = (True, seq), Ok None = (False, None), Err = IndexError ---- *)
+Theorem sc_algo_sound : forall alts orders vo, wf_profile alts orders ->
+  sc_algo alts orders = Ok (Some vo) -> sc_witness_check alts orders vo = true.
+Proof. exact Proofs.SCAlgo.sc_algo_sound. Qed.
+Print Assumptions sc_algo_sound.
+
+Theorem sc_algo_complete : forall alts orders, wf_profile alts orders -> SC alts orders ->
+  exists vo, sc_algo alts orders = Ok (Some vo).
+Proof. exact Proofs.SCAlgo.sc_algo_complete. Qed.
+Print Assumptions sc_algo_complete.
+
+Theorem sc_algo_correct : forall alts orders, wf_profile alts orders ->
+  ((exists vo, sc_algo alts orders = Ok (Some vo)) <-> SC alts orders).
+Proof. exact Proofs.SCAlgo.sc_algo_correct. Qed.
+Print Assumptions sc_algo_correct.
+
+Theorem sc_algo_false_iff : forall alts orders, wf_profile alts orders ->
+  (sc_algo alts orders = Ok None <-> ~ SC alts orders).
+Proof. exact Proofs.SCAlgo.sc_algo_false_iff. Qed.
+Print Assumptions sc_algo_false_iff.
+
+Theorem sc_algo_no_error : forall alts orders, wf_profile alts orders ->
+  forall e, sc_algo alts orders <> Err e.
+Proof. exact Proofs.SCAlgo.sc_algo_no_error. Qed.
+Print Assumptions sc_algo_no_error.
+
+Theorem sc_algo_verdict_correct : forall alts orders, wf_profile alts orders ->
+  sc_algo_verdict alts orders = sc_decide alts orders.
+Proof. exact Proofs.SCAlgo.sc_algo_verdict_correct. Qed.
+Print Assumptions sc_algo_verdict_correct.
+
+(* the geometric core of completeness: a single-crossing profile embeds isometrically into the line
+   (Kendall tau = distance of positions), so the signed distances to the first stored order are
+   pairwise distinct and sorting them recovers a single-crossing sequence *)
+Theorem sc_embeds : forall alts orders, wf_profile alts orders -> SC alts orders ->
+  exists pos : list N -> Z, forall x y, In x orders -> In y orders ->
+    Z.of_nat (ktd x y) = Z.abs (pos x - pos y)%Z.
+Proof. exact Proofs.SCAlgo.sc_embeds. Qed.
+Print Assumptions sc_embeds.
+
 (* ---- non-vacuity ---- *)
 Local Open Scope N_scope.
 Definition ex_alts : list N := [1; 2; 3; 4].
@@ -253,4 +296,12 @@ Proof. vm_compute. reflexivity. Qed.
 
 Example ex_ordered : ordered_check ex_seq = true /\ ordered_check ex_orders = false
                      /\ ktd [1;2;3;4] [3;2;4;1] = 4%nat.
+Proof. repeat split; vm_compute; reflexivity. Qed.
+
+(* the mirrored algorithm on the examples: n >= m (bucket path, first stored order in the middle of the
+   chain), n < m (sort path), the corpus profile (bucket collision), cyclic shifts (distance test fails) *)
+Example ex_algo : sc_algo ex_alts ex_orders = Ok (Some ex_seq)
+  /\ sc_algo ex_alts [[2;3;1;4]; [3;2;4;1]; [1;2;3;4]] = Ok (Some [[1;2;3;4]; [2;3;1;4]; [3;2;4;1]])
+  /\ sc_algo ex_alts [[1;2;3;4]; [1;2;4;3]; [1;3;2;4]; [2;1;3;4]] = Ok None
+  /\ sc_algo [1;2;3] ex_cyc = Ok None.
 Proof. repeat split; vm_compute; reflexivity. Qed.
